@@ -45,7 +45,16 @@ fn build(rules: &[Value], net: &[String], resources: &[Resource], opt: bool) -> 
     }
     fs.add_filters(net, ParseOptions::default());
     let mut e = Engine::from_filter_set(fs, opt);
-    e.use_resources(resources.to_vec());
+    if opt {
+        // the same store, handed over one resource at a time and in the opposite order: the stores of the
+        // cosmetic universes hold no colliding names, so the result must be the same (dependencies of a
+        // scriptlet are resolved when it is injected, not when it is loaded)
+        for r in resources.iter().rev() {
+            let _ = e.add_resource(r.clone());
+        }
+    } else {
+        e.use_resources(resources.to_vec());
+    }
     e
 }
 
